@@ -12,6 +12,7 @@ import (
 	pb "google.golang.org/protobuf/proto"
 
 	proto "github.com/liftbridge-io/liftbridge/server/protocol"
+	"github.com/liftbridge-io/liftbridge/server/verifhook"
 )
 
 const maxActivityPublishBackoff = 10 * time.Second
@@ -260,6 +261,11 @@ func (a *activityManager) publishActivityEvent(event *client.ActivityStreamEvent
 	ctx, cancel := context.WithTimeout(context.Background(), a.config.ActivityStream.PublishTimeout)
 	defer cancel()
 
+	if verifhook.Enabled {
+		if herr := verifhook.Point("activity.beforePublish", a.config.Clustering.ServerID, event.Id); herr != nil {
+			return errors.Wrap(herr, "failed to publish event to stream")
+		}
+	}
 	_, err = a.api.Publish(ctx, &client.PublishRequest{
 		Value:     data,
 		Stream:    activityStream,
@@ -270,6 +276,11 @@ func (a *activityManager) publishActivityEvent(event *client.ActivityStreamEvent
 	}
 
 	a.logger.Debugf("Published %s event to activity stream", event.Op)
+	if verifhook.Enabled {
+		if herr := verifhook.Point("activity.afterPublish", a.config.Clustering.ServerID, event.Id); herr != nil {
+			return errors.Wrap(herr, "failed to update Raft")
+		}
+	}
 
 	// Update last published index in Raft.
 	op := &proto.RaftLog{
